@@ -1849,3 +1849,93 @@ func sharedPoolInitSweep(c *an.Ctx, rule string, typeNames ...string) (sites int
 	}
 	return len(keys)
 }
+
+// sharedConfigImmutable is the rule that request-path code never writes into
+// the objects shared by all requests of a server group or profile: a store whose
+// address is reached through one of the shared-configuration fields of the
+// request information (ServerGroup, FilteringGroup, the profile and device of a
+// device result) modifies what concurrent requests read.  Copies made first
+// (dns.Copy, Clone) start a new chain and are not affected.
+func sharedConfigImmutable(c *an.Ctx, rule string, prefixes ...string) (examined int) {
+	sharedFields := map[string]bool{"ServerGroup": true, "FilteringGroup": true, "Profile": true, "Device": true}
+	var chain func(v ssa.Value, depth int) (fields []string, ok bool)
+	chain = func(v ssa.Value, depth int) ([]string, bool) {
+		if depth > 16 {
+			return nil, false
+		}
+		switch x := v.(type) {
+		case *ssa.FieldAddr:
+			_, f, _, _ := an.FieldOf(x)
+			fs, ok := chain(x.X, depth+1)
+			return append(fs, f), ok
+		case *ssa.Field:
+			_, f, _, _ := an.FieldOf(x)
+			fs, ok := chain(x.X, depth+1)
+			return append(fs, f), ok
+		case *ssa.IndexAddr:
+			fs, ok := chain(x.X, depth+1)
+			return append(fs, "[]"), ok
+		case *ssa.UnOp:
+			if x.Op == token.MUL {
+				// a local cell with a single store: continue at the stored value
+				if al, isAl := x.X.(*ssa.Alloc); isAl {
+					if st := an.SingleStore(al); st != nil {
+						return chain(st.Val, depth+1)
+					}
+					return nil, false
+				}
+				return chain(x.X, depth+1)
+			}
+		case *ssa.Extract:
+			if ta, isTA := x.Tuple.(*ssa.TypeAssert); isTA {
+				return chain(ta.X, depth+1)
+			}
+		case *ssa.TypeAssert:
+			return chain(x.X, depth+1)
+		case *ssa.ChangeType:
+			return chain(x.X, depth+1)
+		case *ssa.Parameter, *ssa.FreeVar:
+			return nil, true
+		}
+		return nil, false // call results, allocations: a fresh chain
+	}
+	for _, fn := range c.AllFns {
+		if fn.Blocks == nil || c.IsTestFile(fn.Pos()) {
+			continue
+		}
+		k := an.FnKey(fn)
+		in := false
+		for _, p := range prefixes {
+			if strings.HasPrefix(k, p) {
+				in = true
+			}
+		}
+		if !in {
+			continue
+		}
+		an.Instrs(fn, func(ins ssa.Instruction) {
+			st, ok := ins.(*ssa.Store)
+			if !ok {
+				return
+			}
+			fs, rooted := chain(st.Addr, 0)
+			if !rooted || len(fs) < 2 {
+				return
+			}
+			shared := ""
+			for _, f := range fs[:len(fs)-1] {
+				if sharedFields[f] {
+					shared = f
+				}
+			}
+			if shared == "" {
+				return
+			}
+			examined++
+			c.Analysed(k)
+			c.Bad(rule, fmt.Sprintf("%s writes %s", k, strings.Join(fs, ".")), st.Pos(),
+				"request-path code writes into an object reached through the shared %s data (the same object serves every concurrent request): another client's answer can change under it; copy the object first", shared)
+		})
+	}
+	return examined
+}
